@@ -9,6 +9,10 @@ use crate::simfs::SimFs;
 use crate::suite_db::{parse_cfg, Session};
 use crate::util::*;
 
+fn lib_trunc(s: &str) -> String {
+    if s.len() > 12 { s[..12].to_string() } else { s.to_string() }
+}
+
 fn short(p: &str) -> String {
     p.replace("db/", "")
 }
@@ -87,6 +91,16 @@ pub fn run_corrupt(line: &str) -> String {
             }
         }
         let original = sim.read_whole(&PathBuf::from(&name)).unwrap();
+        // end of the first data block of a table file (payload + 5-byte trailer)
+        let first_block_end: usize = if name.ends_with(".rdb") {
+            use raindb::verif_hooks::tables as vt;
+            match vt::VTable::open(crate::suite_db::make_options(&sim, last_cfg), &PathBuf::from(&name)) {
+                Ok(t) => t.handles().2.first().map(|(o, sz)| (*o + *sz + 5) as usize).unwrap_or(0),
+                Err(_) => 0,
+            }
+        } else {
+            0
+        };
         // (offset, kind, new byte)
         let mut muts: Vec<(usize, usize, u8)> = vec![];
         for (i, off) in offsets.iter().enumerate() {
@@ -158,15 +172,51 @@ pub fn run_corrupt(line: &str) -> String {
                                 .position(|fs| fs.iter().any(|f| name.ends_with(&format!("/{}.rdb", f.0))))
                                 .map(|l| l.to_string())
                                 .unwrap_or("-".to_string());
+                            // is the mutated table the only input a manual compaction of its
+                            // level can have (alone at level 0, nothing overlapping it one
+                            // level down, nothing in the memtables that a flush would add)?
+                            let alone = {
+                                let mine = d.levels.iter().flatten().find(|f| name.ends_with(&format!("/{}.rdb", f.0)));
+                                match (mine, level.parse::<usize>()) {
+                                    (Some(m), Ok(l)) => {
+                                        let same = d.levels[l].len();
+                                        let below = d.levels.get(l + 1).map(|fs| fs.iter().filter(|f| !(f.3 .0 < m.2 .0 || f.2 .0 > m.3 .0)).count()).unwrap_or(0);
+                                        same == 1 && below == 0 && d.memtable.is_empty() && d.immutable.is_none()
+                                    }
+                                    _ => false,
+                                }
+                            };
                             s2.db().compact_range(None..None);
                             s2.quiesce();
                             let gets2: Vec<String> = keys2.iter().map(|k| s2.get(None, k)).collect();
                             let scan2 = s2.scan_all(None);
-                            phase2 = format!("|{}|{}|{}|{}", openable as u8, level, gets2.join(","), scan2);
+                            phase2 = format!("|{}|{}|{}|{}|{}|{}", openable as u8, level, gets2.join(","), scan2, (*off < first_block_end) as u8, alone as u8);
                         }
-                        s2.quiesce();
-                        s2.close();
-                        format!("ok{}|{}|{}{}", if gone { "-compacted" } else { "" }, gets.join(","), scan, phase2)
+                        // writes acknowledged by the damaged database (a deletion of a key that
+                        // is there, a new key) must hold after a clean close and reopen: nothing
+                        // may be resurrected or lost without an error
+                        let victim = keys2.iter().zip(gets.iter()).find(|(_, g)| g.starts_with('v')).map(|(k, _)| k.clone());
+                        let mut post = String::new();
+                        if !name.ends_with(".rdb") {
+                            let r1 = victim.as_ref().map(|k| s2.exec(&format!("Dx{}", hex(k)))).unwrap_or("-".to_string());
+                            let r2 = s2.exec("Pxfe01=x77");
+                            s2.quiesce();
+                            s2.close();
+                            post = match Session::open(image.clone(), last_cfg) {
+                                Err(e) => format!("|W:{}:{}:open-{}", r1, r2, e),
+                                Ok(mut s3) => {
+                                    let g1 = victim.as_ref().map(|k| s3.get(None, k)).unwrap_or("-".to_string());
+                                    let g2 = s3.get(None, &[0xfe, 0x01]);
+                                    s3.quiesce();
+                                    s3.close();
+                                    format!("|W:{}:{}:{}:{}", r1, r2, lib_trunc(&g1), g2)
+                                }
+                            };
+                        } else {
+                            s2.quiesce();
+                            s2.close();
+                        }
+                        format!("ok{}|{}|{}{}{}", if gone { "-compacted" } else { "" }, gets.join(","), scan, phase2, post)
                     }
                 }
             }));
